@@ -131,6 +131,22 @@ def go(ctx, test, inp, tag, env=None, pkg=PKG, harness=HARNESS, timeout=1500, al
     return summ[0], [r for r in rows if not r.get("summary")], text
 
 
+def read_marks(ctx, tag):
+    """Cases that were in flight when a parallel stage died (one slot per worker, see vMarks)."""
+    p = ctx.path("out_%s.ndjson.cur" % tag)
+    if not os.path.exists(p):
+        return []
+    with open(p, errors="replace") as f:
+        return sorted({ln.strip() for ln in f.read().split("\n") if ln.strip()})
+
+
+def death_line(text):
+    for ln in text.splitlines():
+        if ln.startswith("fatal error") or ln.startswith("signal:") or ln.startswith("panic:"):
+            return ln.strip()
+    return "test process died"
+
+
 def line_of(path, i):
     with open(path) as f:
         for k, ln in enumerate(f):
@@ -183,7 +199,33 @@ def run_sync(ctx, V, ev):
         raise vlib.Inconclusive("CodecSyncGen produced no behaviours")
     ev["states"] += g.distinct
     ev["transitions"] += g.generated
-    summ, bad, _ = go(ctx, "TestVerifCodecSync", hp, "sync")
+    summ, bad, text = go(ctx, "TestVerifCodecSync", hp, "sync", allow_crash=True)
+    if summ is None:
+        # the replay process died: re-run the behaviours that were in flight, each alone
+        ctx.notes.append("sync: test process died (%s)" % death_line(text))
+        hit = 0
+        for mk in read_marks(ctx, "sync")[:8]:
+            if not mk.split()[0].isdigit():
+                continue
+            i = int(mk.split()[0])
+            hist = json.loads(line_of(hp, i))
+            one = ctx.path("sync_one.ndjson")
+            with open(one, "w") as f:
+                for _ in range(i):
+                    f.write("[]\n")
+                f.write(json.dumps(hist) + "\n")
+            s2, bad2, t2 = go(ctx, "TestVerifCodecSync", one, "sync_repro", allow_crash=True)
+            v = [x for x in bad2 if x.get("r") == "violation"]
+            if s2 is None or v:
+                what = ("replaying this behaviour alone kills the process again: " + death_line(t2)) if s2 is None else v[0]["what"]
+                ctx.report("C08 sync %s" % ("process dies" if s2 is None else v[0]["what"].split(":")[0][:60]),
+                           "two codecs a bounded number of updates apart: %s" % what[:400],
+                           {"kind": "sync", "history": hist, "index": i, "mismatch": {"what": what},
+                            "cmd": "python3 tools/verif.py replay C08 <this file>"})
+                hit += 1
+        if not hit:
+            raise vlib.Inconclusive("TestVerifCodecSync died and no behaviour in flight reproduces it:\n%s" % text[-2000:])
+        return
     if summ["replayed"] != n:
         raise vlib.Inconclusive("sync: replayed %s of %s behaviours" % (summ["replayed"], n))
     if not (summ["dec_frame"] and summ["dec_error"] and summ["dec_with_older_state"] and summ.get("many_series_histories")):
@@ -269,23 +311,49 @@ def run_layout(ctx, V, ev):
         ev["transitions"] += r.generated
         ev["design_runs"].append({"spec": "CodecLayout/" + tag, "distinct": r.distinct, "generated": r.generated,
                                   "violated": r.violated, "wall_s": round(r.wall, 1)})
-        summ, bad, _ = go(ctx, "TestVerifCodecLayout", hp, "lay_" + tag, env={"VERIF_NCONC": nconc})
-        if summ["lines"] != n:
-            raise vlib.Inconclusive("layout %s: harness read %s of %s frames" % (tag, summ["lines"], n))
-        tot_cases += summ["cases"]
-        flags_seen = max(flags_seen, summ["flag_bytes_seen"])
-        merged3 += summ["merged3"]
-        lay.append({"run": tag, "frames": n, "cases": summ["cases"], "flag_bytes_seen": summ["flag_bytes_seen"],
-                    "merged2": summ["merged2"], "merged3": summ["merged3"], "wide_payload_cases": summ.get("wide_payload_cases", 0),
-                    "many_series_cases": summ.get("many_series_cases", 0), "tie_cases": summ.get("tie_cases", 0),
-                    "instant_range_cases": summ.get("instant_range_cases", 0)})
-        if tag == "trx" and not (summ.get("many_series_cases") and summ.get("tie_cases") and summ.get("instant_range_cases")):
-            raise vlib.Inconclusive("layout trx vacuous (frames of >= 13 series / ties on (key, alignment) / instant ranges): %s" % summ)
-        if summ.get("wide_payload_cases", 0) == 0:
-            raise vlib.Inconclusive("layout %s: no case with payloads above 64 KB was run" % tag)
-        if tag == "n2" and smp:
-            ev["samples"].append({"spec": "CodecLayout", "frame": json.loads(smp[0])})
+        summ, bad, text = go(ctx, "TestVerifCodecLayout", hp, "lay_" + tag, env={"VERIF_NCONC": nconc}, allow_crash=True)
+        crashed = summ is None
+        if crashed:
+            # the test process died (runaway allocation under the address-space limit, fatal
+            # runtime error). That is an observation to be judged, not the end of the check:
+            # rows written before the death and the cases in flight are re-run one by one.
+            ctx.notes.append("layout %s: test process died (%s)" % (tag, death_line(text)))
+        else:
+            if summ["lines"] != n:
+                raise vlib.Inconclusive("layout %s: harness read %s of %s frames" % (tag, summ["lines"], n))
+            tot_cases += summ["cases"]
+            flags_seen = max(flags_seen, summ["flag_bytes_seen"])
+            merged3 += summ["merged3"]
+            lay.append({"run": tag, "frames": n, "cases": summ["cases"], "flag_bytes_seen": summ["flag_bytes_seen"],
+                        "merged2": summ["merged2"], "merged3": summ["merged3"], "wide_payload_cases": summ.get("wide_payload_cases", 0),
+                        "many_series_cases": summ.get("many_series_cases", 0), "tie_cases": summ.get("tie_cases", 0),
+                        "instant_range_cases": summ.get("instant_range_cases", 0),
+                        "stream_reader_modes": summ.get("stream_reader_modes", {})})
+            if tag == "trx" and not (summ.get("many_series_cases") and summ.get("tie_cases") and summ.get("instant_range_cases")):
+                raise vlib.Inconclusive("layout trx vacuous (frames of >= 13 series / ties on (key, alignment) / instant ranges): %s" % summ)
+            if summ.get("wide_payload_cases", 0) == 0:
+                raise vlib.Inconclusive("layout %s: no case with payloads above 64 KB was run" % tag)
+            if len(summ.get("stream_reader_modes", {})) < 7:
+                raise vlib.Inconclusive("layout %s: not every fragmented-reader mode was exercised: %s" % (tag, summ.get("stream_reader_modes")))
+            if tag == "n2" and smp:
+                ev["samples"].append({"spec": "CodecLayout", "frame": json.loads(smp[0])})
+
+        def isolated(i, cid):
+            """One case alone in a fresh process: ("died", text) | ("violation", row) | None."""
+            ln = line_of(hp, i)
+            one = ctx.path("layout_one.ndjson")
+            with open(one, "w") as f:
+                for _ in range(i):
+                    f.write("{}\n")
+                f.write(ln)
+            s2, bad2, t2 = go(ctx, "TestVerifCodecLayout", one, "lay_repro", env={"VERIF_NCONC": 4, "VERIF_ONLY": cid}, allow_crash=True)
+            if s2 is None:
+                return ("died", t2), ln
+            v = [x for x in bad2 if x.get("r") == "violation"]
+            return (("violation", v[0]) if v else None), ln
+
         seen = set()
+        reported = 0
         for b in bad:
             if b.get("r") == "inconclusive":
                 raise vlib.Inconclusive("layout harness: %s" % b)
@@ -297,20 +365,42 @@ def run_layout(ctx, V, ev):
             if (cat, cfgname) in seen or len(seen) >= 6:
                 continue
             seen.add((cat, cfgname))
-            ln = line_of(hp, b["i"])
-            one = ctx.path("layout_one.ndjson")
-            with open(one, "w") as f:
-                for _ in range(b["i"]):
-                    f.write("{}\n")
-                f.write(ln)
-            s2, bad2, _ = go(ctx, "TestVerifCodecLayout", one, "lay_repro", env={"VERIF_NCONC": 4, "VERIF_ONLY": b["id"]})
-            if not [x for x in bad2 if x.get("r") == "violation"]:
+            res, ln = isolated(b["i"], b["id"])
+            if res is None:
                 raise vlib.Inconclusive("layout violation did not reproduce: %s" % b)
+            what = b["what"][:400] if res[0] == "violation" else b["what"][:300] + "; alone in a fresh process: " + death_line(res[1])
             ctx.report("C08 roundtrip %s [%s]" % (cat, cfgname),
-                       "frame %s (series = key,len,start,end,alignment) under codec %s: %s" % (
-                           json.dumps(b["frame"]), b["id"], b["what"][:400]),
+                       "frame %s (series = key,len,start,end,alignment) under codec %s: %s" % (json.dumps(b["frame"]), b["id"], what),
                        {"kind": "layout", "line": json.loads(ln), "index": b["i"], "id": b["id"], "mismatch": b,
                         "cmd": "python3 tools/verif.py replay C08 <this file>"})
+            reported += 1
+        if crashed:
+            for mk in read_marks(ctx, "lay_" + tag)[:8]:
+                parts = mk.split()
+                if len(parts) < 2 or not parts[0].isdigit():
+                    continue
+                i, cid = int(parts[0]), parts[1]
+                res, ln = isolated(i, cid)
+                if res is None:
+                    continue
+                fr = json.loads(ln)[cid.split("/")[0]]["s"]
+                cfgname = cid.split("/")[1]
+                if res[0] == "died":
+                    sig = "C08 roundtrip process dies [%s]" % cfgname
+                    what = ("Decode / DecodeStream (reader %s) of the ENCODING of this valid frame kills the process, twice "
+                            "(8 GiB address-space limit): %s" % (parts[2] if len(parts) > 2 else "?", death_line(res[1])))
+                else:
+                    sig = "C08 roundtrip %s [%s]" % (res[1]["what"].split(":")[0].split("(")[0].strip()[:50], cfgname)
+                    what = res[1]["what"][:400]
+                ctx.report(sig, "frame %s (series = key,len,start,end,alignment) under codec %s: %s" % (json.dumps(fr), cid, what),
+                           {"kind": "layout", "line": json.loads(ln), "index": i, "id": cid, "mismatch": {"what": what},
+                            "cmd": "python3 tools/verif.py replay C08 <this file>"})
+                reported += 1
+            if not reported:
+                raise vlib.Inconclusive("TestVerifCodecLayout (%s) died and no case in flight reproduces it:\n%s" % (tag, text[-2000:]))
+    if ctx.violations:
+        ev["layout"] = lay
+        return
     if flags_seen < 36 or tot_cases == 0 or (thorough and merged3 == 0):
         raise vlib.Inconclusive("layout replay vacuous: flag bytes seen %d (36 constructible), cases %d, 3-way merges %d" % (
             flags_seen, tot_cases, merged3))
@@ -477,9 +567,16 @@ def run_decode(ctx, V, ev):
 def run(ctx):
     ev = {"states": 0, "transitions": 0, "traces_validated_against_impl": 0, "samples": [], "design_runs": []}
     V = Verdicts()
-    run_sync(ctx, V, ev)
-    run_layout(ctx, V, ev)
-    run_decode(ctx, V, ev)
+    # an unexpected failure in one stage must not hide what the other stages observe
+    problems = []
+    for stage in (run_sync, run_layout, run_decode):
+        try:
+            stage(ctx, V, ev)
+        except vlib.Inconclusive as e:
+            problems.append("%s: %s" % (stage.__name__, e))
+    if problems and not ctx.violations:
+        raise vlib.Inconclusive(" || ".join(problems))
+    ctx.notes += ["stage did not complete: " + p[:300] for p in problems]
     if V.drift and not ctx.violations:
         raise vlib.Inconclusive("%d observations differ from what the specifications pin beyond the property (model drift): %s" % (
             len(V.drift), " | ".join(V.drift[:4])))
@@ -490,7 +587,10 @@ def run(ctx):
                    "CodecLayout.tla enumerates (<= MaxN series over 3 keys, lengths 0..2, time ranges zero / proper / nested / instant [t,t) / "
                    "Start=0<End, 4 alignments, fixed/variable types, subsets, repeated keys, 2-4 raw orders incl. each frame laid end to "
                    "end to 14..16 series with ties on (key, alignment), up to 6 codec configurations) encoded and decoded "
-                   "by the real codec under 2-4 concretisations, compared up to key order and merging, plus flag byte and size; "
+                   "by the real codec under 2-4 concretisations, compared up to key order and merging, plus flag byte and size, and every "
+                   "encoding ALSO decoded through DecodeStream with a fragmenting reader (cross product, rotating over: one byte at a "
+                   "time, 7-byte and 4 KiB chunks, fragments ending exactly at every field boundary, every field split in the middle, "
+                   "a cut inside the seq number, cuts right after the 5-byte header) and compared with Decode of the whole buffer; "
                    "every abstract input of CodecDecode.tla (64 flag bytes x 4 codec states x boundary classes x every truncation) "
                    "concretised and decoded under recover() with allocation accounting, plus seeded byte mutants, the 2^32-1 class "
                    "under an address-space limit, and a sample through the WebSocket framer codec with real channels")
@@ -578,15 +678,15 @@ def replay(ctx, path):
             for _ in range(obj["index"]):
                 f.write("[]\n")
             f.write(json.dumps(obj["history"]) + "\n")
-        s, bad, _ = go(ctx, "TestVerifCodecSync", one, "replay")
-        bad = [b for b in bad if b.get("r") == "violation"]
+        s, bad, text = go(ctx, "TestVerifCodecSync", one, "replay", allow_crash=True)
+        bad = [b for b in bad if b.get("r") == "violation"] or ([{"what": "process dies: " + death_line(text)}] if s is None else [])
     elif kind == "layout":
         with open(one, "w") as f:
             for _ in range(obj["index"]):
                 f.write("{}\n")
             f.write(json.dumps(obj["line"]) + "\n")
-        s, bad, _ = go(ctx, "TestVerifCodecLayout", one, "replay", env={"VERIF_NCONC": 4, "VERIF_ONLY": obj["id"]})
-        bad = [b for b in bad if b.get("r") == "violation"]
+        s, bad, text = go(ctx, "TestVerifCodecLayout", one, "replay", env={"VERIF_NCONC": 4, "VERIF_ONLY": obj["id"]}, allow_crash=True)
+        bad = [b for b in bad if b.get("r") == "violation"] or ([{"what": "process dies: " + death_line(text)}] if s is None else [])
     elif kind == "huge":
         with open(one, "w") as f:
             f.write(json.dumps({"scen": obj["scen"], "hex": obj["hex"], "conc": "u8"}) + "\n")
